@@ -17,7 +17,7 @@
    21 ReportCount, 23 ReportTimer on a handle, 25 DurationBucket,
    26 ReportSamples).  No proofs here. *)
 From Coq Require Import ZArith List Bool Arith.
-From Tally Require Import Base.Obs Model.Buckets.
+From Tally Require Import Base.ObsCore Model.Buckets.
 Import ListNotations.
 Open Scope Z_scope.
 
